@@ -169,6 +169,9 @@ def check_config(ctx, F, tag):
             mode = core(b.term_of_operand(fl[0][1]["args"][1]))
             okt = okt and mode[0] == "adt" and mode[2] == "Safe"
         ctx.ob("C12.R3.flush-trigger", fn + tag, loc(b.raw["span"]), okt, "guard-dominance", "flush(Safe) exactly when buf.len() >= buf_len: %s" % okt)
+    # "for every item width": the item writer's constructors admit exactly the widths the in-memory vector admits (1..=64)
+    import c09
+    c09.check_width_predicate(ctx, F, tag, "C12.R4", only=("int_vector::IntVectorWriter::new", "int_vector::IntVectorWriter::with_buf_len"))
     b = F.body("<int_vector::IntVectorWriter as ops::Push>::push")
     st_len = field_store_blocks(b, IW, "len")
     pb = [(bi, t) for bi, t in b.calls() if callee_name(t).endswith("::push_int") and self_path(b.term_of_operand(t["args"][0])) == ["writer"]]
